@@ -307,3 +307,102 @@ theorem buildDir_enc (cas : Cas) (cmap : List (Digest × Directory)) :
 end
 
 end Grog
+
+namespace Grog
+
+theorem Entry.Same.symm {a b : Entry} (h : a.Same b) : b.Same a := fun p => (h p).symm
+theorem Entry.Same.trans {a b c : Entry} (h1 : a.Same b) (h2 : b.Same c) : a.Same c := fun p => (h1 p).trans (h2 p)
+theorem Entry.Same.refl (a : Entry) : a.Same a := fun _ => rfl
+
+section
+variable (H : Bytes → Digest) (serD : Directory → Bytes) (serT : TreeMsg → Bytes)
+
+theorem ups_form : (es : List (Name × Entry)) → ∀ u ∈ (encList H serD es).ups, u.1 = H u.2
+  | [] => by simp [encList]
+  | (_, .file _ _) :: rest => by
+    intro u hu
+    simp only [encList, List.mem_cons] at hu
+    rcases hu with rfl | hu
+    · rfl
+    · exact ups_form rest u hu
+  | (_, .link _) :: rest => by simpa [encList] using ups_form rest
+  | (_, .dir s) :: rest => by
+    intro u hu
+    simp only [encList, List.mem_append] at hu
+    rcases hu with h | h
+    · exact ups_form s u h
+    · exact ups_form rest u h
+
+/-- the byte streams that are hashed when a directory is written -/
+def streams (es : List (Name × Entry)) : List Bytes :=
+  (encList H serD es).ups.map (·.2) ++ (encList H serD es).kids.map (fun k => serD k.2) ++ [serT (treeMsg H serD es)]
+
+def CollisionFree (S : List Bytes) : Prop := ∀ x ∈ S, ∀ y ∈ S, H x = H y → x = y
+
+/-- a marshalling function `f` is injective on the sub-directory messages of a tree -/
+def InjOnKids (f : Directory → Bytes) (es : List (Name × Entry)) : Prop :=
+  ∀ a ∈ (encList H serD es).kids, ∀ b ∈ (encList H serD es).kids, f a.2 = f b.2 → a.2 = b.2
+
+/-- **The local-hash shortcut is sound**: if the directory currently at the destination hashes to the stored tree
+    digest then it already has exactly the cached listing (no hash collision among the streams of the two trees). -/
+theorem shortcut_sound (es es' : List (Name × Entry)) (hwf : (Entry.dir es).WF) (hwf' : (Entry.dir es').WF)
+    (hserD : InjOnKids H serD serD es) (hserD' : InjOnKids H serD serD es')
+    (hserT : serT (treeMsg H serD es') = serT (treeMsg H serD es) → treeMsg H serD es' = treeMsg H serD es)
+    (hcf : CollisionFree H (streams H serD serT es ++ streams H serD serT es'))
+    (hd : H (serT (treeMsg H serD es')) = H (serT (treeMsg H serD es))) :
+    (Entry.dir es').Same (.dir es) := by
+  have hm : treeMsg H serD es' = treeMsg H serD es := by
+    apply hserT
+    apply hcf _ (by simp [streams]) _ (by simp [streams]) hd
+  have hroot : (encList H serD es').dir = (encList H serD es).dir := congrArg TreeMsg.root hm
+  have hch : children (encList H serD es').kids = children (encList H serD es).kids := congrArg TreeMsg.children hm
+  -- a CAS holding the uploads of both trees
+  let casU : Cas := (encList H serD es').ups ++ (encList H serD es).ups
+  have hcasU : ∀ u, u ∈ (encList H serD es').ups ∨ u ∈ (encList H serD es).ups → casU.get u.1 = some u.2 := by
+    intro u hu
+    have hmem : (u.1, u.2) ∈ casU := by simpa [casU] using hu
+    obtain ⟨c, hl, hc⟩ := lookup_of_key_mem casU u.1 ⟨u.2, hmem⟩
+    have hcu : (u.1, c) ∈ (encList H serD es').ups ∨ (u.1, c) ∈ (encList H serD es).ups := by simpa [casU] using hc
+    have f1 : u.1 = H u.2 := by rcases hu with h | h <;> exact ups_form H serD _ u h
+    have f2 : u.1 = H c := by rcases hcu with h | h <;> exact ups_form H serD _ (u.1, c) h
+    have : c = u.2 := by
+      apply hcf
+      · rcases hcu with h | h
+        · simp only [streams, List.mem_append, List.mem_map]; exact Or.inr (Or.inl (Or.inl ⟨_, h, rfl⟩))
+        · simp only [streams, List.mem_append, List.mem_map]; exact Or.inl (Or.inl (Or.inl ⟨_, h, rfl⟩))
+      · rcases hu with h | h
+        · simp only [streams, List.mem_append, List.mem_map]; exact Or.inr (Or.inl (Or.inl ⟨_, h, rfl⟩))
+        · simp only [streams, List.mem_append, List.mem_map]; exact Or.inl (Or.inl (Or.inl ⟨_, h, rfl⟩))
+      · rw [← f1, ← f2]
+    simp only [Cas.get, hl, this]
+  -- sub-directory digests are collision free in each tree
+  have hinj : ∀ (l : List (Name × Entry)), (l = es ∨ l = es') →
+      ∀ a ∈ (encList H serD l).kids, ∀ b ∈ (encList H serD l).kids, H (serD a.2) = H (serD b.2) → a.2 = b.2 := by
+    intro l hl a ha b hb hab
+    have key : serD a.2 = serD b.2 → a.2 = b.2 := by
+      rcases hl with rfl | rfl
+      · exact hserD a ha b hb
+      · exact hserD' a ha b hb
+    apply key
+    apply hcf _ _ _ _ hab
+    · rcases hl with rfl | rfl
+      · simp only [streams, List.mem_append, List.mem_map]; exact Or.inl (Or.inl (Or.inr ⟨a, ha, rfl⟩))
+      · simp only [streams, List.mem_append, List.mem_map]; exact Or.inr (Or.inl (Or.inr ⟨a, ha, rfl⟩))
+    · rcases hl with rfl | rfl
+      · simp only [streams, List.mem_append, List.mem_map]; exact Or.inl (Or.inl (Or.inr ⟨b, hb, rfl⟩))
+      · simp only [streams, List.mem_append, List.mem_map]; exact Or.inr (Or.inl (Or.inr ⟨b, hb, rfl⟩))
+  let fuel := max (depthList es) (depthList es') + 1
+  let cmap := childMap H serD (children (encList H serD es).kids)
+  obtain ⟨r, hr, hsame⟩ := buildDir_enc H serD casU cmap fuel es (by omega) hwf
+    (fun u hu => hcasU u (Or.inr hu))
+    (childMap_lookup H serD _ (kids_digest H serD es) (hinj es (Or.inl rfl)))
+  obtain ⟨r', hr', hsame'⟩ := buildDir_enc H serD casU cmap fuel es' (by omega) hwf'
+    (fun u hu => hcasU u (Or.inl hu))
+    (by rw [show cmap = childMap H serD (children (encList H serD es').kids) by simp [cmap, hch]]
+        exact childMap_lookup H serD _ (kids_digest H serD es') (hinj es' (Or.inr rfl)))
+  rw [hroot, hr] at hr'
+  cases hr'
+  exact hsame'.symm.trans hsame
+
+end
+end Grog
